@@ -63,6 +63,20 @@ Example bowtie_noise_center :
   poly_center [(0, 0); (4, 3 + (1 # 1000000000000000)); (4, 0); (0, 3)] = (2, 6000000000000001 # 4000000000000000).
 Proof. vm_compute. reflexivity. Qed.
 
+(* rotate a polygon, copy it, turn the copy back to angle 0: the original vertices come back, because the copy carries theta;
+   had the copy restarted at theta = 0 (the seeded change C08-3) the last step would be skipped and the turned vertices kept *)
+Example L_rotate_copy_back :
+  fst (t_apply_ops (tinit (Poly Lshape)) [TRotateTo Bgen false (3 # 5) (4 # 5); TCopy; TRotateTo B0 false 1 0]) = Poly Lshape.
+Proof. vm_compute. reflexivity. Qed.
+Example L_rotate_copy_theta :
+  snd (t_apply_ops (tinit (Poly Lshape)) [TRotateTo Bgen false (3 # 5) (4 # 5); TCopy]) = (3 # 5, 4 # 5).
+Proof. vm_compute. reflexivity. Qed.
+(* a restored polygon restarts at theta = 0, a restored rectangle keeps its angle *)
+Example L_restore_theta :
+  snd (t_apply_ops (tinit (Poly Lshape)) [TRotateTo Bgen false (3 # 5) (4 # 5); TRestore]) = (1, 0) /\
+  snd (t_apply_ops (tinit (Rect 0 4 0 2 B0 1 0)) [TRotateTo Bgen false (3 # 5) (4 # 5); TRestore]) = (3 # 5, 4 # 5).
+Proof. vm_compute. split; reflexivity. Qed.
+
 (* verdicts: inside, outside, and within eps of the boundary *)
 Example verdicts :
   map (classify (1 # 1024) (Rect 0 4 0 2 Bgen (3 # 5) (4 # 5))) [(2, 1); (4, 1); (4, 2); (4 + (1 # 4096), 2)] = [VIn; VOut; VNear; VNear].
@@ -76,5 +90,5 @@ Example wire_run :
                  T 1 [T 0 [leaf 0; leaf 1]; T 0 [leaf 4; leaf 1]; T 0 [leaf 0; leaf 1]; T 0 [leaf 2; leaf 1]; leaf 2; T 0 [leaf 3; leaf 5]; T 0 [leaf 4; leaf 5]];
                  T 0 [T 1 [T 0 [leaf 10; leaf 1]; T 0 [leaf 10; leaf 1]]];
                  T 0 [T 0 [T 0 [leaf 10; leaf 1]; T 0 [leaf 10; leaf 1]]; T 0 [T 0 [leaf 12; leaf 1]; T 0 [leaf 10; leaf 1]]]])
-  = T 0 [T 0 [T 0 [leaf 10; leaf 1]; T 0 [leaf 10; leaf 1]]; T 0 [leaf 1; leaf 0]].
+  = T 0 [T 0 [T 0 [leaf 10; leaf 1]; T 0 [leaf 10; leaf 1]]; T 0 [leaf 1; leaf 0]; T 0 [T 0 [leaf 3; leaf 5]; T 0 [leaf 4; leaf 5]]].
 Proof. vm_compute. reflexivity. Qed.
